@@ -70,7 +70,8 @@ _public_ ssize_t m_mod_unstash(m_mod_t *mod, size_t len) {
     M_ALLOC_ASSERT(unstashed);
 
     m_itr_foreach(mod->stashed, {
-        if (m_idx + 1 == len) {
+        if (m_idx == len) {
+            /* m_idx events were already unstashed: we are done */
             memhook._free(m_itr);
             break;
         }
